@@ -156,7 +156,8 @@ CHECKS = {
         "level_note": "the old signature is the stream WritePatch emits when the old build is the 'new' side; damage is to regular files only.",
         "rule": ("rapid draws (build pair, compression, optimized?, 0-2 damages). Non-trivial: a damage lands in a block that some op of the "
                  "decoded patch reads. Distinct: SHA-1 of the spec."),
-        "assumptions": [],
+        "assumptions": ["one case in ten gives the safekeeper a signature stream cut inside its magic (unreadable under every compression setting): the only verdict then is 'error, or exactly the new build'",
+                        ],
         "required_classes": {"quick": ["reuse:blockrange", "reuse:wholefile", "reuse:bsdiff", "outcome:damaged-rejected", "outcome:undamaged-accepted",
                                         "damage:truncate-at-block-boundary", "damage:extend-inside-last-block"],
                              "thorough": ["reuse:blockrange", "reuse:wholefile", "reuse:bsdiff", "outcome:damaged-rejected", "outcome:undamaged-accepted",
@@ -170,7 +171,7 @@ CHECKS = {
         "level_text": ("Three generated families on unique high-entropy content (one stream per file, no accidental reuse; the identical and rename families also on zero-filled / "
                        "0x20-filled / alternating constant blocks and with 'twin' old files that differ in one block by +1,-2,+1, i.e. several different blocks per rolling-hash bucket): identical builds; "
                        "renames/duplicates; one file with k in 0..4 recorded edits (overwrite/insert/delete, offsets biased to first/last block "
-                       "and block edges, sizes up to 80 blocks so the 4MiB window wraps). Oracles from the decoded patch and DiffContext: "
+                       "and block edges, sizes up to 80 blocks so the 4MiB window wraps; one edits case in thirty is an 18-30 MiB file with one small length-changing edit near its start, so that every wrap of the differ's buffer falls into shifted, reusable data). Oracles from the decoded patch and DiffContext: "
                        "FreshBytes+ReusedBytes == new size; FreshBytes == sum of DATA bytes; equal-content file => 0 fresh bytes; edited file => "
                        "fresh <= introduced + (2k+2)*64KiB (the bound the property states). In a quarter of the cases the old build's signature is not "
                        "computed from the directory but read back (pwr.ReadSignature) from the signature stream a previous diff wrote, as butler does with a downloaded signature."),
